@@ -338,9 +338,15 @@ func NewShortestPathSearchFromPoint(from b6.FeatureID, weights Weights, w b6.Wor
 	rs := w.FindReferences(from)
 	for rs.Next() {
 		f := w.FindFeatureByID(rs.FeatureID())
-		if p, ok := f.(b6.PhysicalFeature); ok && weights.IsUseable(b6.Segment{Feature: p}) {
-			connected = true
-			break
+		if p, ok := f.(b6.PhysicalFeature); ok {
+			// Consider both directions, since a one way path isn't
+			// useable as a zero length segment.
+			forwards := b6.ToSegment(p)
+			backwards := b6.Segment{Feature: p, First: forwards.Last, Last: forwards.First}
+			if weights.IsUseable(forwards) || weights.IsUseable(backwards) {
+				connected = true
+				break
+			}
 		}
 		if building := f.Get("#building"); building.IsValid() {
 			buildings = append(buildings, f)
